@@ -85,12 +85,111 @@ def source_repo():
 #   * np.sum(components, axis=0) / components.sum(axis=0) is the sum of the components; np.linalg.norm(components, axis=0) its root;
 #   * `mask.all()` / `np.all(mask)` as a test: "this element satisfies the condition and so do all the others", the second part an
 #     unknown of its own (a whole-array fast path is taken for some inputs and not for others; see drop_shortcuts).
+#   * a loop over a literal sequence of local names whose body updates the loop variable in place (`for a in (ra1, dec1, ra2, dec2):
+#     np.deg2rad(a, out=a)`) updates the named arrays (the loop variable is the array itself); a body that re-binds the loop variable
+#     is left to the base evaluator (a re-bound name no longer is the element);
+#   * record classes: calling a package class that is a typing.NamedTuple / a plain @dataclass without a constructor of its own makes
+#     a record of its fields (positional arguments in field order, keywords by name, class-level defaults); `rec.field` reads the
+#     field.  Anything else done with the record (indexing, unpacking, its methods) is not interpreted (no verdict).
 
 class FnRef(symx.Opaque):
     """a function named without being called; `what` is its fully qualified name"""
 
 
-_NOT_FUNCS = ("numpy.pi", "math.pi", "numpy.e", "math.e", "numpy.inf", "math.inf", "numpy.nan", "math.nan", "numpy.newaxis")
+class Record(dict):
+    """the value of a record class instance: field name -> value"""
+    cls = ""
+
+
+_RECORD_CACHE = {}
+_DATACLASS_FLAGS = ("frozen", "eq", "order", "repr", "slots", "unsafe_hash")
+
+
+def _record_fields(repo, mod, cls):
+    """[(field, default expression or None)] in constructor order when `cls` (a ClassDef of module `mod`) is a record class whose
+    constructor does nothing but store its arguments: `class C(NamedTuple)` or a plain `@dataclass`, the body made of annotated
+    fields (and methods other than a constructor / attribute hooks); None for every other class"""
+    key = (mod.name, cls.name)
+    if key in _RECORD_CACHE:
+        return _RECORD_CACHE[key]
+    _RECORD_CACHE[key] = None
+
+    def res(n):
+        d = dotted_name(n)
+        return repo.resolve_name(mod, d) if d else ""
+
+    named = len(cls.bases) == 1 and res(cls.bases[0]) == "typing.NamedTuple" and not cls.keywords and not cls.decorator_list
+    data = False
+    if not cls.bases and not cls.keywords and len(cls.decorator_list) == 1:
+        dec = cls.decorator_list[0]
+        if isinstance(dec, ast.Call):
+            data = res(dec.func) == "dataclasses.dataclass" and not dec.args and all(
+                k.arg in _DATACLASS_FLAGS and isinstance(k.value, ast.Constant) for k in dec.keywords)
+        else:
+            data = res(dec) == "dataclasses.dataclass"
+    if not (named or data):
+        return None
+    fields = []
+    for st in cls.body:
+        if isinstance(st, ast.Expr) and isinstance(st.value, ast.Constant):
+            continue
+        if isinstance(st, ast.Pass):
+            continue
+        if isinstance(st, (ast.FunctionDef, ast.AsyncFunctionDef)):
+            if st.name in ("__new__", "__init__", "__post_init__", "__getattr__", "__getattribute__", "__setattr__", "__init_subclass__"):
+                return None
+            continue
+        if isinstance(st, ast.AnnAssign) and isinstance(st.target, ast.Name) and st.simple:
+            if any(isinstance(x, (ast.Name, ast.Attribute)) and (x.id if isinstance(x, ast.Name) else x.attr) in ("ClassVar", "InitVar", "KW_ONLY")
+                   for x in ast.walk(st.annotation)):
+                return None
+            if st.value is not None and isinstance(st.value, ast.Call) and call_name(st.value) == "field":
+                return None
+            if st.value is None and any(dflt is not None for _, dflt in fields):
+                return None
+            fields.append((st.target.id, st.value))
+            continue
+        return None
+    if not fields or len({f for f, _ in fields}) != len(fields):
+        return None
+    _RECORD_CACHE[key] = fields
+    return fields
+
+
+def _rebinds(stmts, name):
+    """a statement of the block gives `name` a new value (as opposed to updating, in place, the object it names)"""
+    def bound(t):
+        if isinstance(t, ast.Name):
+            return t.id == name
+        if isinstance(t, (ast.Tuple, ast.List)):
+            return any(bound(x) for x in t.elts)
+        if isinstance(t, ast.Starred):
+            return bound(t.value)
+        return False
+    for st in stmts:
+        for x in ast.walk(st):
+            if isinstance(x, ast.Assign) and any(bound(t) for t in x.targets):
+                return True
+            if isinstance(x, (ast.AnnAssign, ast.AugAssign, ast.NamedExpr, ast.For, ast.AsyncFor)) and bound(x.target):
+                return True          # `a *= k` is in place for an array and a new object for a python number: not decided here
+            if isinstance(x, ast.comprehension) and bound(x.target):
+                return True
+            if isinstance(x, (ast.With, ast.AsyncWith)) and any(it.optional_vars is not None and bound(it.optional_vars) for it in x.items):
+                return True
+            if isinstance(x, ast.ExceptHandler) and x.name == name:
+                return True
+            if isinstance(x, (ast.Import, ast.ImportFrom)) and any((al.asname or al.name.split(".")[0]) == name for al in x.names):
+                return True
+            if isinstance(x, (ast.Global, ast.Nonlocal)) and name in x.names:
+                return True
+            if isinstance(x, (ast.FunctionDef, ast.AsyncFunctionDef, ast.ClassDef)) and x.name == name:
+                return True
+            if isinstance(x, ast.Delete) and any(bound(t) for t in x.targets):
+                return True
+    return False
+
+
+_NOT_FUNCS =("numpy.pi", "math.pi", "numpy.e", "math.e", "numpy.inf", "math.inf", "numpy.nan", "math.nan", "numpy.newaxis")
 
 
 class SepEnv(symx.Env):
@@ -108,6 +207,10 @@ class SepEnv(symx.Env):
                     return FnRef(self.mod.name + "." + e.id)
             return v
         if isinstance(e, ast.Attribute):
+            if isinstance(e.value, ast.Name) and e.value.id not in self.pins and isinstance(self.vars.get(e.value.id), Record) \
+                    and norm(e) not in self.vars and norm(e) not in self.flags:
+                rec = self.vars[e.value.id]
+                return rec[e.attr] if e.attr in rec else symx.Opaque(norm(e))
             d = dotted_name(e)
             if d and not self._shadowed(d.split(".")[0]) and norm(e) not in self.vars and norm(e) not in self.flags:
                 full = self.se.repo.resolve_name(self.mod, d)
@@ -137,6 +240,66 @@ class SepEnv(symx.Env):
                 node = ast.Attribute(value=node, attr=p, ctx=ast.Load())
             return node
         return None
+
+    # ---- loops ---------------------------------------------------------------------------------------------------------------
+    def exec_for(self, st, cond):
+        tgt, it = st.target, st.iter
+        if not (isinstance(it, (ast.Tuple, ast.List)) and isinstance(tgt, ast.Name) and 0 < len(it.elts) <= 64 and not st.orelse
+                and tgt.id not in self.pins and not any(isinstance(x, ast.Starred) for x in it.elts)) or _rebinds(st.body, tgt.id):
+            return symx.Env.exec_for(self, st, cond)
+        # the loop variable names the element itself during the whole body: whatever the body does to it in place (out=, the output
+        # operand of a ufunc, an inlined helper that writes its parameter) is done to the element
+        vals = [self.ev(x) for x in it.elts]
+        body_ = symx._continue_to_else(st.body)
+        rets, updated = [], set()
+        for x, v in zip(it.elts, vals):
+            if isinstance(x, ast.Name) and x.id in updated:
+                v = self.vars[x.id]                     # the same array listed twice: the second visit sees the first update
+            self.vars[tgt.id] = v
+            try:
+                rets += self.exec_body(body_, cond)
+            except symx._ContinueLoop as c_:
+                if c_.cond != cond:
+                    raise symx.Unsupported("symx: conditional continue at %s" % self.where(st))
+            new = self.vars.get(tgt.id)
+            if symx._same(new, v):
+                continue
+            if not (isinstance(x, ast.Name) and x.id in self.vars and x.id not in self.pins and x.id != tgt.id and symx._is_expr(new)):
+                raise symx.Unsupported("symx: in-place update of the element `%s` through the loop variable `%s` at %s"
+                                       % (norm(x), tgt.id, self.where(st)))
+            self.vars[x.id] = new
+            updated.add(x.id)
+            if self.fi is not None and self.depth > 0 and x.id in [p.lstrip("*") for p in self.fi.params]:
+                symx._inplace_params(self.fi).add(x.id)      # the caller of an inlined helper sees its argument updated
+        return rets
+
+    # ---- record classes ------------------------------------------------------------------------------------------------------
+    def _record(self, full, c):
+        """the record made by calling the record class `full`, or None when `full` is not one"""
+        hit = self.se.repo.class_of(full)
+        if hit is None:
+            return None
+        cmod, cls = hit
+        fields = _record_fields(self.se.repo, cmod, cls)
+        if fields is None:
+            return None
+        names = [f for f, _ in fields]
+        if len(c.args) > len(names) or any(k.arg is None for k in c.keywords):
+            raise symx.Unsupported("symx: call `%s` at %s" % (norm(c)[:60], self.where(c)))
+        rec = Record()
+        rec.cls = full
+        for f, a in zip(names, c.args):
+            rec[f] = self.ev(a)
+        for k in c.keywords:
+            if k.arg not in names or k.arg in rec:
+                raise symx.Unsupported("symx: call `%s` at %s" % (norm(c)[:60], self.where(c)))
+            rec[k.arg] = self.ev(k.value)
+        for f, dflt in fields:
+            if f not in rec:
+                if dflt is None:
+                    raise symx.Unsupported("symx: call `%s` at %s" % (norm(c)[:60], self.where(c)))
+                rec[f] = type(self)(self.se, None, cmod, {}, {}).ev(dflt)
+        return rec
 
     # ---- tests ---------------------------------------------------------------------------------------------------------------
     def truth(self, t):
@@ -188,6 +351,10 @@ class SepEnv(symx.Env):
             return self.call(c2, stmt_level)
         full = self.se.repo.resolve_name(self.mod, d) if d and not self._shadowed(d.split(".")[0]) else ""
         starred = any(isinstance(a, ast.Starred) for a in c.args)
+        if full and not starred and not full.startswith(("numpy.", "math.")) and not self.se.repo.has(full):
+            rec = self._record(full, c)
+            if rec is not None:
+                return rec
         if full.startswith("numpy.") and not starred:
             if full in ("numpy.nonzero", "numpy.flatnonzero") and len(c.args) == 1 and not c.keywords:
                 m = self.ev(c.args[0])
